@@ -647,7 +647,9 @@ def make_configs(cirq, mods):
         call = (lambda tr: lambda c, context: tr(c, context=context, rng_or_seed=GAUGE_SEED[0]))(tr) if nm.endswith('MM') else gauge_call(tr)
         C.append(Cfg(nm, '', call, 'semantic', kinds=(kind, kind, kind + ':measured'), expect_raise=gdeep, n=0.6, nest=False))
     # ---- special contracts ----
-    C.append(Cfg('defer_measurements', '', ctx_call(t.defer_measurements), 'special', kinds=('measured', 'measured', 'terminal', 'measured-nc'), contract='defer', sub_exempt=True, deep=False, n=1.5))
+    defer_ignored = lambda circuit, deep, ignore, e: ignore and isinstance(e, ValueError) and 'Deferred measurement for key' in str(e)
+    C.append(Cfg('defer_measurements', '', ctx_call(t.defer_measurements), 'special', kinds=('measured', 'measured', 'terminal', 'measured-nc'), contract='defer', sub_exempt=True, deep=False, n=1.5,
+                 expect_raise=defer_ignored))
     no_cc = raises_documented(ValueError, lambda c, deep, ign: any(cirq.control_keys(op) for op in flatten_ops(cirq, c)))
     C.append(Cfg('dephase_measurements', '', lambda c, context: t.dephase_measurements(c, context=cirq.TransformerContext(deep=True, tags_to_ignore=context.tags_to_ignore)), 'special',
                  kinds=('measured-nocc', 'terminal'), contract='average', sub_exempt=True, deep=False, expect_raise=no_cc))
@@ -681,7 +683,7 @@ def run_case(ctx, cirq, cfg, circuit, kind, deep, ignore, checks, case_no):
             ctx.count(cfg.id + ':documented-error', [rep['circuit'], deep, ignore], False)
             return
         import traceback
-        ctx.violation(f'{cfg.name}:raises:{type(e).__name__}', f'{cfg.id} raised {type(e).__name__}: {str(e)[:300]} (deep={deep}, ignore={ignore}) on\n{circuit}',
+        ctx.violation(f'{cfg.name}:raises:{type(e).__name__}:{error_class(str(e))}', f'{cfg.id} raised {type(e).__name__}: {str(e)[:300]} (deep={deep}, ignore={ignore}) on\n{circuit}',
                       dict(kind='raises', error=traceback.format_exc()[-1500:], **rep))
         return
     # (v) the argument is not modified
@@ -693,7 +695,8 @@ def run_case(ctx, cirq, cfg, circuit, kind, deep, ignore, checks, case_no):
         ign_out = collect_ignored(cirq, out, deep)
         miss = multiset_missing(ign_in, ign_out)
         if miss:
-            ctx.violation(f'{cfg.name}:ignored-op-touched', f'{cfg.id}: operation(s) carrying the ignored tag were changed or removed: {miss[:3]!r}; {desc}\noutput:\n{out}',
+            only_sub = all(isinstance(o.untagged, cirq.CircuitOperation) for o in miss)
+            ctx.violation(f'{cfg.name}:ignored-op-touched' + (':subcircuit-unrolled' if only_sub and not multiset_missing(flatten_ops(cirq, cirq.Circuit(miss)), flatten_ops(cirq, out)) else ''), f'{cfg.id}: operation(s) carrying the ignored tag were changed or removed: {miss[:3]!r}; {desc}\noutput:\n{out}',
                           dict(kind='ignored', missing=repr(miss), output=repr(out), **rep))
     # (iv) sub-circuits are only rewritten when deep=True
     if not deep and not cfg.sub_exempt:
@@ -722,7 +725,8 @@ def run_case(ctx, cirq, cfg, circuit, kind, deep, ignore, checks, case_no):
     sem_kind = None
     try:
         expr, sem_kind = semantic_check(cirq, rng, ops_in, ops_out, cfg.contract)
-        checks.append(dict(case=case_no, what='semantics', stream=f'{cfg.id}:{sem_kind}', expr=expr, cfg=cfg, rep=dict(rep, output=repr(out), output_diagram=str(out)), desc=desc))
+        checks.append(dict(case=case_no, what='semantics', stream=f'{cfg.id}:{sem_kind}', expr=expr, cfg=cfg, desc=desc,
+                           rep=dict(rep, output=repr(out), output_diagram=str(out), root_cause=root_cause(cirq, cfg, circuit, out, deep))))
     except opsem.Unsupported as e:
         ctx.count(cfg.id + ':unsupported', str(e), False)
     # (vi) reorder-only: exact trace validation
@@ -764,6 +768,12 @@ def features(cirq, c):
     return f or {'plain'}
 
 
+def error_class(msg):
+    import re
+    m = re.match(r'[A-Za-z ]+', msg)
+    return (m.group(0).strip() if m else '')[:60]
+
+
 def evaluate(ctx, checks):
     """Evaluate all Coq booleans in parallel shards; returns set of indices (into checks) that are false."""
     failed = set()
@@ -799,7 +809,35 @@ def report(ctx, checks, failed):
 
 
 def signature_features(rep):
-    return rep.get('features', '')
+    return rep.get('root_cause', '')
+
+
+def key_order(cirq, ops):
+    """per measurement key: the sequence of measured (original) qubit tuples, in execution order"""
+    seq = {}
+    for op in ops:
+        if isinstance(op.gate, cirq.MeasurementGate):
+            qs = tuple(getattr(q, '_qid', q) for q in op.qubits)
+            seq.setdefault(str(op.gate.key), []).append(qs)
+    return seq
+
+
+def root_cause(cirq, cfg, circuit, out, deep):
+    """Features of a failing case, computed on the real input/output, that name a recorded defect class (part of the signature)."""
+    f = []
+    ops_in, ops_out = flatten_ops(cirq, circuit), flatten_ops(cirq, out)
+    ki, ko = key_order(cirq, ops_in), key_order(cirq, ops_out)
+    if any(len(v) > 1 for v in ki.values()) and any(ki.get(k) != ko.get(k) for k in ki):
+        f.append('per-key-measurement-order-changed')
+    if not deep and any(isinstance(op.untagged, cirq.CircuitOperation) and cirq.is_measurement(op) for op in circuit.all_operations()):
+        f.append('measurement-inside-subcircuit')
+    for m in circuit:
+        if any(isinstance(op.gate, cirq.CZPowGate) for op in m) and any(op.gate is None for op in m):
+            gone = multiset_missing([op for op in m if op.gate is None], list(out.all_operations()))
+            if gone:
+                f.append('gateless-op-in-cphase-moment-dropped')
+                break
+    return '+'.join(f)
 
 
 def run(ctx):
